@@ -23,7 +23,30 @@ func init() { checks["C08"] = c08Main }
 var sp = func(c, s uint64) spice.Melange { return spice.Melange{Currency: c, SupplementaryCurrency: s} }
 
 // buildShape constructs the ledger for a C08 scenario and returns the world.
+type c08TipT struct {
+	hash   [32]byte
+	weight uint64
+}
+
+// c08Tip records, per world, a tip of node 0 at the end of the set-up phase.
+var c08Tip = map[*world.LW]c08TipT{}
+
 func c08World(shape string, nodes ...string) *world.LW {
+	w := c08WorldRaw(shape, nodes...)
+	for k := range c08Tip {
+		delete(c08Tip, k)
+	}
+	snap := w.Nodes[0].Book.VerifSnapshot()
+	l := snap.Leaves[0]
+	for _, v := range snap.Vertices {
+		if v.Hash == l {
+			c08Tip[w] = c08TipT{l, v.Weight}
+		}
+	}
+	return w
+}
+
+func c08WorldRaw(shape string, nodes ...string) *world.LW {
 	nd := world.GetNodes(nodes...)
 	supply := sp(100, 0)
 	if shape == "overflow" {
@@ -86,14 +109,9 @@ func c08Op(w *world.LW, op string, ctx context.Context) string {
 		_, err := w.Propose(ctx, 0, w.Tx("op-create", R, A, 1, 0))
 		return "create=" + world.ErrClass(err)
 	case "add":
-		snap := b.VerifSnapshot()
-		l := snap.Leaves[0]
-		var wt uint64
-		for _, v := range snap.Vertices {
-			if v.Hash == l {
-				wt = v.Weight
-			}
-		}
+		// crafted on the tip the set-up phase left (recorded there): a snapshot taken here could observe the middle of
+		// a concurrent admission, which is an artefact of the harness hook, not of the node
+		l, wt := c08Tip[w].hash, c08Tip[w].weight
 		v := w.Craft(M, w.Tx("op-add", R, A, 1, 0), l, l, wt+1)
 		err := w.Deliver(ctx, 0, v)
 		return "add=" + world.ErrClass(err)
